@@ -11,7 +11,9 @@ Correspondence (model = lean/IrVerif/Model/Path.lean, driver commands path.*):
     vs the model's sessions; histories over the tensors of one model through every public re-basing operation (setter with str /
     pathlib / bytes values, external_data.set_base_dir on the main graph and on a function body, load_to_model,
     convert_tensors_from_external, Model.clone) vs the model's world (path.world);
-  * zero-size tensors, NUL characters, PATH_MAX / NAME_MAX, symlink chains nested deeper than the kernel's bound (path.readsT);
+  * zero-size tensors, NUL characters, PATH_MAX / NAME_MAX, paths that follow 36..44 symbolic links in one resolution - nested, one
+    after the other, mixed (path.readsT / path.reads / path.lstats); bytes locations (path.readsTB); trees whose resolved names are
+    PATH_MAX bytes and longer (path.readsP); histories with a re-pointed symlink on the base path and with os.chdir (path.world);
   * a static AST scan of the imported onnx_ir tree: every file-access call site and every user of path / location / base_dir is
     in an explicit table (modelled entry point, or not location-derived with a reason); the audit hook attributes every open to
     the onnx_ir function that made it;
@@ -37,7 +39,7 @@ import stat
 import sys
 import tempfile
 
-from harness.common import Ctx, Part, lean_batch, lean_batch_parallel, load_corpus, pmap
+from harness.common import Ctx, Infra, Part, lean_batch, lean_batch_parallel, load_corpus, pmap
 
 THEOREMS = [
     "IrVerif.Path.C10_lexical",
@@ -60,6 +62,10 @@ THEOREMS = [
     "IrVerif.Path.C10_fuel_discharged",
     "IrVerif.Path.C10_zero_size",
     "IrVerif.Path.C10_world_safe",
+    "IrVerif.Path.C10_eloop_counts_all_links",
+    "IrVerif.Path.C10_world_chdir_opens",
+    "IrVerif.Path.C10_bytes_location",
+    "IrVerif.Path.C10_pathmax_verified_partial",
 ]
 ASSUMPTIONS = [
     "POSIX only: os.path.normcase is the identity; Windows/ntpath behaviour is not modelled",
@@ -67,17 +73,25 @@ ASSUMPTIONS = [
     "BETWEEN calls are modelled (sessions, world histories)",
     "CPython 3.12 posixpath semantics (join, normpath, abspath, split/dirname, realpath/_joinrealpath with its seen cache) "
     "as transcribed; the kernel's path resolution (path_resolution(7): lookup in directories, '..' at the root, symlink "
-    "following, trailing separators, ENOTDIR/ENOENT, ELOOP modelled as a bound on the NESTING of symlink expansions rather than "
-    "Linux's total of 40 per resolution: the generated chains stay clear of the band where the two differ) is a hand-written model "
-    "validated against os.lstat/os.stat/os.path.realpath on fixed and random trees; PATH_MAX is modelled at the open of the tensor's "
-    "path only (ASCII byte counts), NAME_MAX as 'no such entry'",
+    "following, trailing separators, ENOTDIR/ENOENT, ELOOP as Linux counts it: EVERY link followed in one resolution, nested or one "
+    "after the other, costs one of MAXSYMLINKS = 40 (theorem C10_eloop_counts_all_links; validated on the running kernel with "
+    "sequential fans, trailing chains, nested chains and mixtures of 36..44 links)) is a hand-written model validated against "
+    "os.lstat/os.stat/os.path.realpath on fixed and random trees; the theorems about safe opens use the model WITHOUT PATH_MAX in "
+    "os.lstat / os.stat (PATH_MAX at the open only), which is exact on trees without names of PATH_MAX bytes or more; PATH_MAX at "
+    "every path operation is a second model (readP / checkContainmentP: an entry os.path.realpath cannot lstat is a non-link, "
+    "D451) compared with the real code on trees whose resolved names are PATH_MAX - 2 .. 5600 bytes long, with the partial theorem "
+    "C10_pathmax_verified_partial (ASCII byte counts; NAME_MAX as 'no such entry')",
     "os.getcwd() names a chain of real directories (true on POSIX); theorems about safe opens assume the recursion bound of "
     "os.path.realpath is at least the kernel's symlink bound; C10_fuel_discharged shows that every such bound gives the outcome of "
     "the kernel's bound itself (hypothesis, evaluated per generated case and published as fuel_hypothesis=*: the location is "
     "relative, or the kernel resolves the base directory)",
     "a NUL character in the base directory or the location makes os.lstat raise ValueError inside check 2 (modelled: check2 = false; "
     "theorem C10_nul_rejected); a bytes base_dir with a str location makes os.path.join raise TypeError before any check or open "
-    "(modelled in callT); a bytes LOCATION is outside the model (type-incorrect)",
+    "(modelled in callT); a bytes LOCATION (os.fsencode spelling) raises TypeError with every non-empty base directory before any "
+    "check or open, and reads unchecked with the empty bytes base directory (modelled: callTB, theorem C10_bytes_location)",
+    "os.chdir between the operations of a history: every call that opens the file resolves a relative base directory from the "
+    "working directory of that call (model: runWorldC, theorem C10_world_chdir_opens); like a change of the tree, a change of "
+    "directory does not drop a mapping (a mapped tensor is served from its mapping while its base directory VALUE is unchanged)",
     "an ABSOLUTE location that lies inside the base directory is accepted (join(base, abs) = abs, check 1 passes): the "
     "property's 'absolute paths raise' is read as 'absolute paths leading outside the base raise'",
     "an empty base directory disables the checks by design (programmatic construction); the theorems and the oracle are about "
@@ -289,6 +303,88 @@ def random_tree_path(rng, R: str) -> str:
     return R + "/" + body
 
 
+# --------------------------------------------------------------------------- no hang, no crash on a changed implementation
+
+
+class _Timeout(BaseException):
+    """raised by the SIGALRM handler (BaseException: `except Exception` in the harness or the library does not swallow it)"""
+
+
+READ_TIMEOUT_S = 20.0     # one call of an entry point / one public operation of the real code
+STREAM_TIMEOUT_S = 900.0  # one stream (a family of cases in the main process, one job of a worker)
+_EXPIRED = {"n": 0}       # time limits that expired in this process: after 3 the stream is abandoned, later streams get 5 s per call
+
+
+class _TooManyTimeouts(Exception):
+    pass
+
+
+def _read_limit() -> float:
+    return READ_TIMEOUT_S if _EXPIRED["n"] < 3 else 5.0
+
+
+def _on_alarm(signum, frame):
+    raise _Timeout()
+
+
+class _time_limit:
+    """`with _time_limit(seconds) as tl: ...`: the body is interrupted by SIGALRM after `seconds` (real code that loops, or blocks in
+    an interruptible system call); `tl.expired` tells.  Nests: an enclosing limit keeps running."""
+
+    def __init__(self, seconds: float):
+        self.seconds, self.expired = seconds, False
+
+    def __enter__(self):
+        import signal
+        import time
+
+        self._t0 = time.monotonic()
+        self._old_handler = signal.signal(signal.SIGALRM, _on_alarm)
+        self._outer = signal.setitimer(signal.ITIMER_REAL, self.seconds)[0]
+        if 0 < self._outer < self.seconds:  # never outlive the enclosing limit
+            signal.setitimer(signal.ITIMER_REAL, self._outer)
+        return self
+
+    def __exit__(self, et, ev, tb):
+        import signal
+        import time
+
+        signal.setitimer(signal.ITIMER_REAL, 0)
+        signal.signal(signal.SIGALRM, self._old_handler)
+        mine = et is not None and issubclass(et, _Timeout)
+        if self._outer > 0:
+            left = self._outer - (time.monotonic() - self._t0)
+            if mine and left <= 0.05:
+                return False  # the ENCLOSING limit expired: let it see the exception
+            signal.setitimer(signal.ITIMER_REAL, max(left, 0.05))
+        if mine:
+            self.expired = True
+            _EXPIRED["n"] += 1
+            return True
+        return False
+
+
+def _guard(part, name: str, fn, *a, limit: float | None = None, **kw):
+    """Run one stream of the harness so that a changed implementation can neither hang nor crash the check: a time limit
+    (-> failing input `nontermination:<stream>`) and exceptions escaping the stream (real code called on harness stubs, a
+    generator that meets an implementation it was not written for) become a broken correspondence, never a harness crash."""
+    try:
+        with _time_limit(limit or STREAM_TIMEOUT_S) as tl:
+            return fn(*a, **kw)
+        if tl.expired:
+            part.fail(f"nontermination:stream:{name}", f"the stream {name} did not finish within {limit or STREAM_TIMEOUT_S:.0f} s (real code that does not terminate?)", {"stream": name})
+    except Infra:
+        raise
+    except _TooManyTimeouts:
+        part.fail(f"nontermination:stream:{name}", f"the stream {name} was abandoned: calls of the real code keep exceeding their time limit", {"stream": name})
+    except Exception as e:  # noqa: BLE001
+        import traceback
+
+        part.disagree(f"the stream {name} raised outside a guarded call of the real code", {"stream": name}, None,
+                      f"{type(e).__name__}: {e}"[:300] + " @ " + " <- ".join(f"{f.name}:{f.lineno}" for f in traceback.extract_tb(e.__traceback__)[-3:]))
+    return None
+
+
 # --------------------------------------------------------------------------- real reads
 
 _AUDIT = {"on": False, "events": [], "sites": [], "installed": False, "pkg": None}
@@ -336,8 +432,8 @@ def _classify(e: BaseException) -> str:
             return "c1"
         if "resolves via symlink" in m:
             return "c2"
-        if "multiple hard links" in m or "is not a regular file" in m:
-            return "c3"
+        if "multiple hard links" in m or "is not a regular file" in m or "could not be verified" in m:
+            return "c3"  # "could not be verified": the samestat cross-check of os.path.realpath against the kernel (D451 / D452)
         if "embedded null byte" in m:
             return "c2"  # os.lstat inside check 2's os.path.realpath refuses the string (model: check2 = false)
     if isinstance(e, TypeError) and "mix str" in m.replace("strings", "str"):
@@ -388,12 +484,16 @@ def real_read(t, ep: str, scratch: str, R: str, release: bool = True) -> dict:
     _AUDIT["events"] = []
     _AUDIT["sites"] = []
     _AUDIT["on"] = True
+    obs = None
     try:
-        try:
-            data = read_via(t, ep, scratch)
-            obs = {"r": "ok", "bytes": data.decode("latin1")}
-        except Exception as e:  # noqa: BLE001
-            obs = {"r": "raised", "layer": _classify(e), "exc": type(e).__name__}
+        with _time_limit(_read_limit()) as tl:
+            try:
+                data = read_via(t, ep, scratch)
+                obs = {"r": "ok", "bytes": data.decode("latin1")}
+            except Exception as e:  # noqa: BLE001
+                obs = {"r": "raised", "layer": _classify(e), "exc": type(e).__name__}
+        if tl.expired or obs is None:
+            obs = {"r": "raised", "layer": "timeout", "exc": "Timeout"}  # reported by compare() as nontermination:read:<ep>
     finally:
         _AUDIT["on"] = False
         if release:
@@ -593,8 +693,13 @@ def fs_json(desc: dict) -> dict:
 
 
 def _work(job: dict) -> dict:
-    """One chunk: fixed base spelling, list of (loc, ep, offset, length)."""
     part = Part()
+    _guard(part, "reads", _work_body, part, job)
+    return part
+
+
+def _work_body(part, job: dict) -> dict:
+    """One chunk: fixed base spelling, list of (loc, ep, offset, length)."""
     tree, desc, sp = job["tree"], job["desc"], job["sp"]
     R = tree["R"]
     os.chdir(sp["cwd"])
@@ -656,6 +761,11 @@ def _work(job: dict) -> dict:
 def compare(part, case: dict, obs: dict, out: dict, id_of: dict, R: str) -> None:
     """Model verdict vs the real read: accept/reject, bytes, which layer rejects, whether the tensor's path was
     opened by this call and which inode that reached."""
+    if obs.get("layer") == "timeout":
+        part.fail(f"nontermination:read:{case.get('ep')}", f"a read did not return within {READ_TIMEOUT_S:.0f} s", dict(case))
+        if _EXPIRED["n"] >= 3:
+            raise _TooManyTimeouts()
+        return
     for site in obs.get("open_sites", ()):
         if tuple(site) not in ENTRY_OPEN_SITES:
             part.disagree("a file was opened during a read by an onnx_ir function that is not a modelled open site (FILE_SITES entry:*)", case, sorted(ENTRY_OPEN_SITES), site)
@@ -698,10 +808,15 @@ def compare(part, case: dict, obs: dict, out: dict, id_of: dict, R: str) -> None
 
 
 def _realpath_work(job: dict) -> dict:
+    part = Part()
+    _guard(part, "realpath", _realpath_body, part, job)
+    return part
+
+
+def _realpath_body(part, job: dict) -> dict:
     """os.path.realpath / os.lstat / os.stat vs the model on the same tree."""
     import stat as _stat
 
-    part = Part()
     desc, cwd, paths, R = job["desc"], job["cwd"], job["paths"], job["R"]
     os.chdir(cwd)
     key_of = {k: info["id"] for k, info in desc["inodes"].items()}
@@ -1120,7 +1235,8 @@ FILE_SITES = {
     ("_core.py", "ExternalTensor.tofile", "open"): (1, "entry:openCopy", "with open(self.path, 'rb') as src  (body tofile = [check, openCopy])"),
     ("_core.py", "ExternalTensor.tofile", "getattr:copy_file_range"): (1, "entry:openCopy", "kernel copy FROM the descriptor opened by the line above"),
     ("_core.py", "ExternalTensor._check_path_containment", "os.path.realpath"): (2, "check", "check 2: realpath(base_dir), realpath(path)"),
-    ("_core.py", "ExternalTensor._check_path_containment", "os.stat"): (1, "check", "check 3: stat(path_real) for st_nlink / S_ISREG; metadata only"),
+    ("_core.py", "ExternalTensor._check_path_containment", "os.stat"): (4, "check", "check 3: stat(path) for st_nlink / S_ISREG, and the samestat cross-check of "
+                                                                        "os.path.realpath against the kernel: stat(path_real), stat(base_dir), stat(base_real) (D451 / D452); metadata only"),
     ("_core.py", "Tensor.tofile", ".tofile"): (1, "not-derived", "numpy ndarray.tofile(file): WRITES an in-memory array to the caller's file object"),
     ("_core.py", "PackedTensor.tofile", ".tofile"): (1, "not-derived", "numpy ndarray.tofile(file): WRITES an in-memory array to the caller's file object"),
     ("_core.py", "LazyTensor.tofile", ".tofile"): (2, "delegate", "forwards to the evaluated tensor's tofile / TensorBase.tofile(tobytes())"),
@@ -1399,15 +1515,15 @@ def run(ctx: Ctx) -> None:
                                      "paths following n = 36..44 links (sequential, trailing chains, nested, mixed) from 3 starting points")
         for p in pmap(_realpath_work, rp_jobs):
             ctx.merge(p)
-        load_cases(ctx, tree, desc)
-        nested_load_cases(ctx, tree, desc)
-        odd_cases(ctx, tree2, desc2)
-        size_zero_cases(ctx, tree2, desc2)
-        bytes_location_cases(ctx, tree, desc)
-        pathmax_cases(ctx)
-        stateful_sequences(ctx)
-        world_sequences(ctx)
-        random_trees(ctx)
+        _guard(ctx, "load", load_cases, ctx, tree, desc)
+        _guard(ctx, "nested-load", nested_load_cases, ctx, tree, desc)
+        _guard(ctx, "odd", odd_cases, ctx, tree2, desc2)
+        _guard(ctx, "size-zero", size_zero_cases, ctx, tree2, desc2)
+        _guard(ctx, "bytes-location", bytes_location_cases, ctx, tree, desc)
+        _guard(ctx, "pathmax", pathmax_cases, ctx)
+        stateful_sequences(ctx)   # workers: guarded per scenario
+        world_sequences(ctx)      # workers: guarded per history
+        random_trees(ctx)         # workers: guarded per job
     finally:
         os.chdir(old)
         shutil.rmtree(tree["top"], ignore_errors=True)
@@ -1722,7 +1838,7 @@ def run_scenario(part, loc: str, steps: list, label: str) -> None:
 def _stateful_work(job: list) -> dict:
     part = Part()
     for loc, steps, label in job:
-        run_scenario(part, loc, steps, label)
+        _guard(part, "stateful", run_scenario, part, loc, steps, label, limit=120.0)
     return part
 
 
@@ -1987,6 +2103,7 @@ def run_world(part, ops: list, label: str) -> None:
                 _AUDIT["events"], _AUDIT["sites"], _AUDIT["on"] = [], [], True
                 try:
                     try:
+                      with _time_limit(_read_limit()) as tl_op:
                         if kind == "load":
                             ir.external_data.load_to_model(active)
                             res = [active.graph.initializers[ts[i].name].const_value if i != 2 else
@@ -1995,6 +2112,10 @@ def run_world(part, ops: list, label: str) -> None:
                         else:
                             res = ir.external_data.convert_tensors_from_external([ts[i] for i in idx])
                         got = {"r": "ok", "bytes": [bytes(ir.serde.serialize_tensor(m_).raw_data).decode("latin1") for m_ in res]}
+                      if tl_op.expired:
+                        part.fail(f"nontermination:world-op:{kind}", f"load_to_model / convert_tensors_from_external did not return within {READ_TIMEOUT_S:.0f} s",
+                                  {"via": "world-" + kind, "sequence": label, "ops": ops})
+                        return
                     except Exception as e:  # noqa: BLE001
                         got = {"r": "raised", "layer": _classify(e), "exc": type(e).__name__}
                 finally:
@@ -2112,7 +2233,7 @@ def run_world(part, ops: list, label: str) -> None:
 def _world_work(job: list) -> dict:
     part = Part()
     for ops, label in job:
-        run_world(part, ops, label)
+        _guard(part, "world", run_world, part, ops, label, limit=120.0)
     return part
 
 
@@ -2208,8 +2329,8 @@ def world_sequences(ctx: Ctx) -> None:
 
 def bytes_location_cases(ctx: Ctx, tree: dict, desc: dict) -> None:
     """A LOCATION given as a bytes object (os.fsencode spelling), with base directories of every type incl. the empty ones
-    (model: callTB, theorem C10_bytes_location).  Oracle: with a non-empty base directory no byte is returned (except b"" by
-    tobytes of a zero-size tensor) and no file of the tree is opened."""
+    (model: callTB, theorem C10_bytes_location: with a non-empty base directory nothing is checked or opened and the call raises).
+    Oracle: the property itself - bytes returned / files opened lie inside the base directory."""
     import pathlib
 
     import onnx_ir as ir
@@ -2238,10 +2359,8 @@ def bytes_location_cases(ctx: Ctx, tree: dict, desc: dict) -> None:
                         ctx.case(["bytes-location", kind, base.replace(R, "$R"), loc.replace(R, "$R"), ep, zero], bytes_loc_base=kind + ("-empty" if base == "" else ""),
                                  bytes_loc_outcome=(obs["r"] + ("-nobytes" if obs.get("bytes") == "" else "") if obs["r"] == "ok" else "raised-" + obs.get("layer", "?")))
                         if base != "":
-                            if obs["r"] == "ok" and obs["bytes"] != "":
-                                ctx.fail(f"bytes-location-read:{kind}:{ep}", "a read of a tensor with a bytes location under a non-empty base directory returned bytes", {**case, "obs": obs})
-                            if any((posixpath.normpath(p_) + "/").startswith(tree["top"] + "/") for p_ in obs["opened"]):
-                                ctx.fail(f"bytes-location-open:{kind}:{ep}", "a read of a tensor with a bytes location under a non-empty base directory opened a file", {**case, "obs": obs})
+                            # the property itself (an implementation that accepted bytes locations would have to keep them inside)
+                            oracle(ctx, tree, desc, {**case, "length": 0 if zero and ep not in ("tofile_bytesio", "tofile_file") else NBYTES}, obs, b)
                         queries.append([kind, mbase, loc, 0, NBYTES, zero, ep])
                         obs_l.append((case, obs))
         mo = lean_batch([{"m": "path.readsTB", "fs": fs_json(desc), "cwd": R, "kfuel": KFUEL, "fuel": PFUEL, "queries": queries}])[0]
@@ -2268,6 +2387,13 @@ def _deep_mkdirs(start: str, n: int, tag: str, last_len: int | None = None) -> l
         os.chdir(name)
         names.append(name)
     return names
+
+
+def _short_dotdots(sp: str) -> str:
+    """"../../../..." -> "(../ x N)" in the description of a case"""
+    import re as _re
+
+    return _re.sub(r"(?:\.\./){8,}", lambda m: f"(../ x{len(m.group(0)) // 3})", sp)
 
 
 def describe_tree_deep(R: str) -> dict:
@@ -2320,7 +2446,7 @@ def pathmax_cases(ctx: Ctx, only: str | None = None) -> None:
     """PATH_MAX at EVERY path operation of the containment check (os.lstat inside os.path.realpath, os.stat of the resolved path),
     not only at the open: trees whose resolved locations are PATH_MAX bytes or longer while the strings given to the library
     are short.  Model: readP (joinRealP / lstatP / statFileP: an entry that cannot be lstat'ed is a non-link, as in CPython's
-    non-strict realpath).  Shapes: `long-base` - an absolute base directory reached through two long relative symbolic links
+    non-strict realpath).  Shapes: `dotdot-long` - a relative base directory with hundreds of leading ".." (D453); `blind-dotdot` - a short but wrong realpath answer for the base directory (see below); `long-base` - an absolute base directory reached through two long relative symbolic links
     (D451); `deep-cwd` - a relative base directory under a working directory about 4.2 kB deep (D452); `boundary` - resolved
     names of exactly PATH_MAX - 2 .. PATH_MAX + 1 bytes.  Oracle: no byte of a file outside the base directory / with
     several links is returned."""
@@ -2337,6 +2463,7 @@ def pathmax_cases(ctx: Ctx, only: str | None = None) -> None:
         _w(R + "/outside/hc", b"CANARY_H")
         canaries = {"CANARY_C", "CANARY_H"}
         setups = []  # (shape, cwd as a list of chdir steps from R, base, true base label, [locs])
+        reported: set = set()
 
         def fill_base() -> None:
             """in the current directory: a base directory's content"""
@@ -2356,11 +2483,30 @@ def pathmax_cases(ctx: Ctx, only: str | None = None) -> None:
             os.chdir(c_)
         n2 = _deep_mkdirs(".", 14, "e")
         fill_base()
+        # blind-dotdot: in that directory M -> $R/o/a1/.../a29; the base directory "$R/t/L/L2/M/" + 29 x "../" is $R/o for the
+        # kernel, but $R/t for os.path.realpath (which cannot lstat M, takes it for a directory and pops it and the 28 names
+        # above it lexically): a SHORT, well-formed, wrong answer for the base directory; the absolute location $R/t/x
+        os.makedirs(R + "/o/" + "/".join(f"a{i}" for i in range(1, 30)))
+        os.symlink(R + "/o/" + "/".join(f"a{i}" for i in range(1, 30)), "M")
+        _w(R + "/t/x", b"CANARYTX")
+        canaries.add("CANARYTX")
         for _ in n2:
             os.chdir("..")
         os.symlink("/".join(n2), "L2")
+        setups.append(("blind-dotdot", [], R + "/t/L/L2/M/" + "../" * 29, [R + "/t/x", "x", R + "/o/a1", "../t/x"]))
         setups.append(("long-base", [], R + "/t/L/L2", ["ok", "sym", "sym_in", "hard", "sub/f", "dsym_in/f", "nothing", "../L2/sym"]))
         setups.append(("long-base", ["t"], "L/L2", ["ok", "sym", "hard", "sub/f"]))
+        # dotdot-long (D453): a RELATIVE base directory with about 1270 leading "../" (3.8 kB, below PATH_MAX) + the working
+        # directory + "/L", L -> two directories with 200-character names: os.path.realpath lstat's the relative spelling, which
+        # exceeds PATH_MAX from the second of them on, while its answer (after abspath) is a short absolute string; `sym` there
+        # leads outside.  Read from the working directory $R/v.
+        A_, B_ = "A".ljust(200, "a"), "B".ljust(200, "b")
+        os.makedirs(f"{R}/v/{A_}/{B_}")
+        os.symlink(f"{A_}/{B_}", R + "/v/L")
+        os.chdir(f"{R}/v/{A_}/{B_}")
+        fill_base()
+        for kk in ((4096 - 420 - len(R + "/v")) // 3 + 60, (4096 - 420 - len(R + "/v")) // 3 - 200):
+            setups.append(("dotdot-long", ["v"], "../" * kk + (R + "/v").lstrip("/") + "/L", ["ok", "sym", "hard", "sub/f", "dsym_in/f"]))
         # deep-cwd: R/w/<21 directories>/base, read with the relative base directory "base" from inside
         os.mkdir(R + "/w")
         nw = _deep_mkdirs(R + "/w", 21, "c")
@@ -2390,14 +2536,15 @@ def pathmax_cases(ctx: Ctx, only: str | None = None) -> None:
             cwd = os.getcwd()
             queries, obs_l = [], []
             for li, loc in enumerate(locs):
-                for ep in (ENTRY_POINTS if loc in ("sym", "hard") and shape != "boundary" else [ENTRY_POINTS[li % len(ENTRY_POINTS)], ENTRY_POINTS[(li + 3) % len(ENTRY_POINTS)]]):
-                    case = {"cwd_len": len(cwd), "cwd_steps": len(steps), "base": base.replace(R, "$R"), "loc": loc, "ep": ep, "via": "pathmax", "shape": shape}
+                for ep in (ENTRY_POINTS if (loc in ("sym", "hard") and shape != "boundary") or (shape == "blind-dotdot" and li == 0) else [ENTRY_POINTS[li % len(ENTRY_POINTS)], ENTRY_POINTS[(li + 3) % len(ENTRY_POINTS)]]):
+                    case = {"cwd_len": len(cwd), "cwd_steps": len(steps), "base": _short_dotdots(base.replace(R, "$R")), "loc": loc, "ep": ep, "via": "pathmax", "shape": shape}
                     t = make_tensor(base, loc)
                     obs = real_read(t, ep, top + "/scratch", R)
                     kind = "hardlink" if loc == "hard" else "symlink"
-                    ctx.case(["pathmax", shape, len(steps), base.replace(R, "$R"), loc, ep], nontrivial=True, pathmax_shape=shape,
+                    ctx.case(["pathmax", shape, len(steps), len(base), base.replace(R, "$R")[-40:], loc, ep], nontrivial=True, pathmax_shape=shape,
                              pathmax_outcome=(obs["r"] if obs["r"] == "ok" else "raised-" + obs.get("layer", "?")))
-                    if obs["r"] == "ok" and obs["bytes"] in canaries:
+                    if obs["r"] == "ok" and obs["bytes"] in canaries and (kind, ep) not in reported:
+                        reported.add((kind, ep))  # one failing input per signature: the list of failures of a run is bounded
                         ctx.fail(f"pathmax-escape:{kind}:{ep}", "a read returned the bytes of a file outside the base directory / with several links: the containment "
                                  "check is blind where os.lstat / os.stat fail with ENAMETOOLONG (resolved names of PATH_MAX bytes or more)", {**case, "obs": {"r": "ok", "bytes": obs["bytes"]}})
                     queries.append([base, loc, 0, NBYTES])
